@@ -279,9 +279,38 @@ func shells() *family {
 	})
 }
 
+// goInts: fields whose Go type is the platform int - a plain int as i64, and a hand-written enum
+// (named int) annotated with its own name (i32 on the wire, 8 bytes in memory) or as i64.
+func goInts() *family {
+	return cached("goints", func() *family {
+		f := &family{name: "go-int"}
+		sc := universe.Sc
+		bases := []func() *ref.Type{
+			func() *ref.Type { return &ref.Type{Kind: ref.KI64, GoInt: true} },
+			func() *ref.Type { return &ref.Type{Kind: ref.KEnum, GoInt: true} },
+			func() *ref.Type { return &ref.Type{Kind: ref.KI64, GoInt: true, Named: true} },
+		}
+		for _, b := range bases {
+			forms := []*ref.Type{b(), universe.ListOf(b()), universe.SetOf(b()), universe.MapOf(b(), sc(ref.KString)), universe.MapOf(sc(ref.KI16), b()),
+				universe.MapOf(b(), b()), universe.ListOf(universe.ListOf(b()))}
+			for _, t := range forms {
+				for _, sh := range universe.Shells(t) {
+					f.items = append(f.items, universe.One(t, sh, 1))
+				}
+			}
+			p := b()
+			p.Ptr = true
+			f.items = append(f.items, universe.One(p, universe.FieldShell{Req: ref.ReqOptional}, 2))
+		}
+		// the same named int type as enum in one field and as i64 in the next
+		f.items = append(f.items, &ref.Struct{Fields: []*ref.Field{{ID: 1, Req: ref.ReqDefault, Type: bases[1]()}, {ID: 2, Req: ref.ReqDefault, Type: bases[2]()}, {ID: 3, Req: ref.ReqDefault, Type: universe.ListOf(bases[1]())}}})
+		return f
+	})
+}
+
 // codecFamilies is the type space shared by C01, C02, C04, C16 and C18.
 func codecFamilies(tier universe.Tier) []*family {
-	fs := []*family{singles(3), idFamily(), pairs(tier), depth4(), wide(), idSweep(), denseIDs(), shells()}
+	fs := []*family{singles(3), idFamily(), pairs(tier), depth4(), wide(), idSweep(), denseIDs(), shells(), goInts()}
 	if tier == universe.Thorough {
 		fs = append(fs, triples())
 	}
